@@ -35,6 +35,17 @@ M = [
  ('whether a `loop` terminates is decided by its own body', 'C03', '`fn g() { throw("x"); } fn f() -> int { loop { return 1; } }` was rejected with "Mismatched types" because an earlier diverging expression left CurrentLoopIsTerminated set'),
  ('evaluates the arguments of a closure call in the caller', 'C02', '`fn apply(f: fn(x: int) -> int, v: int) -> int { f(f(v)) }` called with a closure literal: interpreter panic in getVar ("Variable \'f\' not found")'),
  ('import cycle check terminates', 'C05', 'modules main -> a -> b -> a (a cycle that does not contain main): importGraphIsCyclicInner recursed forever, "goroutine stack exceeds 1000000000-byte limit" killed the host'),
+ ('printing an analysed string literal escapes', 'C19', '`println("tab\\there", "bs\\\\b", "cr\\rz")`: AnalyzedProgram.String() printed the tab as \\n, dropped the backslash escape and the carriage return; the printed program printed other text'),
+ ('printing a parsed string literal escapes', 'C19', 'Program.String() printed string literals raw: a literal containing a quote or backslash did not lex back to the same string'),
+ ('a singleton declaration is printed as', 'C19', '`$S = { n: int };` was printed as `$S` and the type on separate lines: the printed program is rejected ("Expected \'=\'")'),
+ ('an event function is printed as', 'C19', '`event fn cb(elapsed: int) { }` was printed as `eventfn cb(...)`: the printed program is rejected'),
+ ('an any-object literal is printed as', 'C19', '`let o = new { ? };` was printed as `let o = { ? };`: the printed program is rejected ("Expected an expression")'),
+ ('float literals are printed with all their digits', 'C19', '`let x = 9900000000000000000.0;` was printed as `9.9e+18`, which lexes as `9.9`, `e`, `+`, `18`; printing was not a fixed point'),
+ ('printing an analysed match expression includes its default arm', 'C19', '`match sel { 0 => 10, _ => 30 }`: AnalyzedProgram.String() dropped the `_` arm and the printed program was rejected ("Missing default branch")'),
+ ('object keys and object type fields are quoted', 'C19', '`let o = new { "key one": 1 };`: AnalyzedProgram.String() printed the inferred type as `{ key one: int }` (rejected); lexer/util.IsIdent returned false for every name longer than one character'),
+ ('keeps singleton extraction parameters', 'C19', '`$S = int; fn get(self: $S) -> int { self }`: AnalyzedProgram.String() printed `fn get(self: int)`, the printed call `get()` was rejected ("requires 1 argument")'),
+ ('integral float literals beyond 1e15', 'C19', '`9900000000000000000.0 as int`: printed as `<int>f` with an int64 overflow ("value out of range")'),
+ ('large integral float literals are printed with a', 'C19', 'follow-up of the previous fix: `9900000000000000000.0` printed without a fraction lexed as an integer'),
 ]
 log = subprocess.check_output(['git', '-C', '/repo', 'log', '--reverse', '--format=%h %s']).decode().splitlines()
 fixed, unmatched = [], []
